@@ -7,4 +7,4 @@ package inproc
 //@ struct inproc
 //@   immutable: closeq readyq selfProto peerProto addr
 //@   never_closed: rq wq
-//@   elem_invariant rq, wq: elem != nil && arrof(elem.Header) != arrof(elem.Body) && len(elem.Header) == 0
+//@   elem_invariant rq, wq: elem != nil && arrof(elem.Header) != arrof(elem.Body) && len(elem.Header) == 0 && !shared(elem)
